@@ -270,6 +270,10 @@ func analyse(c sh.Case, tr *sh.Trace) *analysis {
 		an.fail("final-open", -1, "", 0, "pools are quiet but backend connection(s) survive inside a transaction or with autocommit off: %v", an.dirty)
 		return an
 	}
+	if !tr.FreshOK && strings.Contains(tr.FreshErr, "timed out") {
+		an.skip = "the fresh session's statements hit max_sql_execute_time (machine too slow): inconclusive"
+		return an
+	}
 	if !tr.FreshOK {
 		an.fail("fresh", -1, "", 0, "pools are quiet but a fresh session cannot use every slice: %s", tr.FreshErr)
 	}
@@ -352,6 +356,7 @@ func predict(c sh.Case, tr *sh.Trace) *prediction {
 			for sl, tc := range m.conns {
 				if tc.closed && closedBefore[tc] {
 					p.leak[sl+"/master"]++
+					p.abandoned[tc.conn] = true // the reconnected socket is never closed either
 					p.f2 = true
 				}
 			}
@@ -392,6 +397,7 @@ func predict(c sh.Case, tr *sh.Trace) *prediction {
 					// reconnecting after "broken pipe", which leaves the DirectConnection flagged closed.
 					if cl := cls[sh.Key(e)]; heldBefore[e.Slice] && m.conns[e.Slice] != nil && (cl == "session" || cl == "bare") {
 						m.conns[e.Slice].closed = true
+						m.conns[e.Slice].conn = sh.Key(e) // the pooled connection now sits on the new socket
 					}
 					continue
 				}
@@ -659,5 +665,5 @@ func TestC19Ledger(t *testing.T) {
 	if pbt.Tier() == "thorough" {
 		gen = genCaseThorough
 	}
-	pbt.Run(t, pbt.Spec{ID: "C19", Sub: "ledger", Quick: 80, Thorough: 400, Rule: rule, Floor: 0.3}, gen, checkCase)
+	pbt.Run(t, pbt.Spec{ID: "C19", Sub: "ledger", Quick: 60, Thorough: 400, Rule: rule, Floor: 0.3}, gen, checkCase)
 }
